@@ -666,7 +666,7 @@ def join(u, other):
 
 # ---------------------------------------------------------------- '/' and joinpath (C13)
 
-def make_child_requires(u, paths, encoded):
+def make_child_requires(u, paths, encoded=False):
     """the branch that normalises (an authority and a '.' in an appended text) runs
     normalize_path_segments over the whole list including the root marker -- it is covered by the
     bounded stand-in only (and holds the known finding KF-C13-child-root-pop); under an authority
@@ -684,7 +684,7 @@ def make_child_requires(u, paths, encoded):
     return ok
 
 
-def make_child(u, paths, encoded):
+def make_child(u, paths, encoded=False):
     """C13: the segments of the path (without a trailing empty one), then the segments of every
     appended text in order (an empty trailing segment is kept only for the last text; existing
     empty segments inside are kept, none is created); texts are quoted once; a leading '/' in a text
@@ -809,3 +809,27 @@ def lemma_joinpath_two_steps(u, a, b, encoded):
     two = make_child(mid, (b,), encoded)
     return (one.scheme == two.scheme and one.netloc == two.netloc and one.path == two.path
             and one.query == two.query and one.fragment == two.fragment)
+
+
+def truediv(u, name):
+    """C13: u / s is u.joinpath(s); anything but a str is left to the other operand"""
+    if not isinstance(name, str):
+        return NotImplemented
+    return make_child(u, (name,), False)
+
+
+def truediv_requires(u, name):
+    return (not isinstance(name, str)) or make_child_requires(u, (name,), False)
+
+
+def joinpath(u, other, encoded):
+    return make_child(u, other, encoded)
+
+
+def joinpath_requires(u, other, encoded):
+    return make_child_requires(u, other, encoded)
+
+
+def decoded_authority(u):
+    """the decoded authority: the decoded user, password and host and the effective port, assembled as RFC 3986 3.2 says"""
+    return spec_parse.make_netloc(user(u), password(u), host(u), port(u))
